@@ -275,9 +275,9 @@ def elem_scales(R, form, ref6):
         return [("lin", rn, 1), ("ang", 1, rn / rho), ("lin", rn, 1), ("lin", vn, 1), ("lin", vn / rho, rn / rho), ("lin", vn, 1)]
     anom = "ang" if conic == "ell" else "lin"
     if form == "keplerian":
-        return [("lin", a, 1), ("lin", 1, 1), ("lin", 1, ci), ("ang", 1, ci), ("ang", 1, ce * ci), ("ang", 1, ce)]
+        return [("lin", a, 1), ("lin", max(e, 1), 1), ("lin", 1, ci), ("ang", 1, ci), ("ang", 1, ce * ci), ("ang", 1, ce)]
     if form in ("keplerian_eccentric", "keplerian_mean"):
-        return [("lin", a, 1), ("lin", 1, 1), ("lin", 1, ci), ("ang", 1, ci), ("ang", 1, ce * ci), (anom, max(1.0, abs(ref6[5])), ce)]
+        return [("lin", a, 1), ("lin", max(e, 1), 1), ("lin", 1, ci), ("ang", 1, ci), ("ang", 1, ce * ci), (anom, max(1.0, abs(ref6[5])), ce)]
     if form == "keplerian_circular":
         return [("lin", a, 1), ("lin", max(e, 1), ci), ("lin", max(e, 1), ci), ("lin", 1, ci), ("ang", 1, ci), ("ang", 1, ci)]
     if form == "keplerian_mean_circular":
@@ -286,7 +286,7 @@ def elem_scales(R, form, ref6):
         t2 = 1 + math.tan(inc / 2) ** 2
         return [("lin", a, 1), ("lin", max(e, 1), 1), ("lin", max(e, 1), 1), ("lin", 1, t2), ("lin", 1, t2), ("ang", 1, 1)]
     if form == "tle":
-        return [("lin", 1, ci), ("ang", 1, ci), ("lin", 1, 1), ("ang", 1, ce * ci), ("ang", 1, ce), ("lin", ref6[5], 1)]
+        return [("lin", 1, ci), ("ang", 1, ci), ("lin", max(e, 1), 1), ("ang", 1, ce * ci), ("ang", 1, ce), ("lin", ref6[5], 1)]
     raise ValueError(form)
 
 
@@ -674,14 +674,19 @@ def _R_of_state(rv, mu, frame):
                 conic="ell" if e < 1 else "hyp", frame=frame)
 
 
-def _state_ok(R2, form, arr):
-    """(ok, text) of library numbers `arr` in `form` against the reference state R2."""
+def _state_ok(R2, form, arr, src=None):
+    """(ok, text, ratio) of library numbers `arr` in `form` against the reference state R2.  `src`: reference
+    description of the state the numbers were converted FROM when that is another orbit (frame change to another
+    body): the conversion first goes through the source state's own elements, so its conditioning adds up."""
     if not _finite(arr):
         return False, "non-finite numbers", float("inf")
     er, ev = cart_err(R2, form, arr)
     ee, j = elem_err(R2, form, arr)
-    tol = TOL_CART[R2["conic"]] * R2["cond"]
-    ok = max(er, ev) <= tol and ee <= TOL_ELEM[R2["conic"]] * R2["cond"]
+    if src is None:
+        tol = TOL_CART[R2["conic"]] * R2["cond"]
+    else:
+        tol = TOL_CART[R2["conic"]] * R2["cond"] + TOL_CART[src["conic"]] * src["cond"]
+    ok = max(er, ev) <= tol and ee <= tol
     return ok, f"|dr|/r={er:.3e} |dv|/v={ev:.3e}; worst element #{j} off by {ee:.3e} x scale (tol {tol:.1e})", max(er, ev, ee) / tol
 
 
@@ -710,7 +715,9 @@ def check_frame(orb, S, t):
         if obj.frame.name != frame or obj.form.name != form:
             t.fail(f"frame-change/{kind}/label", clause, case, [frame, form], [obj.frame.name, obj.form.name], what)
             return False
-        ok, txt, ratio = _state_ok(Rx, form, arr)
+        # the state was read from / passes through the elements of the orbit around the OTHER body: a near-parabolic
+        # or far-out source (cond 1000 at e = 1.001) limits what the new elements can be, however benign they look
+        ok, txt, ratio = _state_ok(Rx, form, arr, src=R if Rx is R2 else R2)
         if ok:
             t.margin(f"frame change ({kind}): state and elements vs reference with the new body's mu [rel/cond]", ratio, 1.0, case)
         else:
@@ -727,7 +734,8 @@ def check_frame(orb, S, t):
         return
     if examine(c, R2, "VfHeavyI", S, f"{S} in EME2000 -> copy(frame='VfHeavyI')", "copy"):
         ref2 = fr.infos_ref(rv2, mu2)
-        _compare_infos(t, c.infos, ref2, R2["conic"], R2["cond"], body_r2, case, lambda name, kind: f"frame-change/infos/{cls}", None,
+        csum = R2["cond"] + R["cond"] * TOL_INFO[R["conic"]] / TOL_INFO[R2["conic"]]  # source conditioning adds up (see examine)
+        _compare_infos(t, c.infos, ref2, R2["conic"], csum, body_r2, case, lambda name, kind: f"frame-change/infos/{cls}", None,
                        f"infos of the {S} state after copy(frame='VfHeavyI')", "frame change infos.")
         # and back
         try:
